@@ -1431,7 +1431,9 @@ class ProgramData:
                         set_to = True
                         flag_name = option_value
                     else:
-                        flag_name, set_to = option_value.split("=")
+                        flag_name, _, set_to = option_value.partition("=")
+                        if set_to not in ["yes", "on", "no", "off"]:
+                            raise RuntimeError("Invalid value for flag " + flag_name + " (expected yes, on, no or off)")
                         set_to = set_to in ["yes", "on"]
                     option_value = flag_name
                     flag_name = flag_name.upper().replace("-", "_")
@@ -1453,6 +1455,8 @@ class ProgramData:
             elif option_name == "dump-prefix":
                 cls.dump_prefix = option_value
             elif option_name in ["t", "dry-run"]:
+                if option_name == "t" and option_value:
+                    raise RuntimeError("Option -t takes no value")
                 cls.dry_run = True
             else:
                 p_option_name = option_name.upper().replace("-", "_")
